@@ -1439,11 +1439,21 @@ func (f *formatter) ExprTernary(n *ast.ExprTernary) {
 
 func (f *formatter) ExprUnaryMinus(n *ast.ExprUnaryMinus) {
 	n.MinusTkn = f.newToken('-', []byte("-"))
+	switch n.Expr.(type) {
+	case *ast.ExprUnaryMinus, *ast.ExprPreDec:
+		// "- -$a" must not become "--$a"
+		f.addFreeFloating(token.T_WHITESPACE, []byte(" "))
+	}
 	n.Expr.Accept(f)
 }
 
 func (f *formatter) ExprUnaryPlus(n *ast.ExprUnaryPlus) {
 	n.PlusTkn = f.newToken('+', []byte("+"))
+	switch n.Expr.(type) {
+	case *ast.ExprUnaryPlus, *ast.ExprPreInc:
+		// "+ +$a" must not become "++$a"
+		f.addFreeFloating(token.T_WHITESPACE, []byte(" "))
+	}
 	n.Expr.Accept(f)
 }
 
